@@ -1268,6 +1268,226 @@ def de_enumerate(func):
     return Func(func.module, func.qualname, root, func.cls, func.parent)
 
 
+def hoist_calls(repo, func):
+    """A Func in which calls of same-module multi-statement helpers that sit inside a larger expression of an
+    assignment / return / expression statement (`xs = f(a) + f(b)`) are bound to fresh temporaries first, left to right
+    (`t1 = f(a); t2 = f(b); xs = t1 + t2`), so that the statement-level inliner can reach them."""
+    import copy
+
+    changed = [False]
+    counter = [0]
+
+    def inlinable(call):
+        callee = repo.resolve_call(func, call)
+        if callee is None or callee.module is not func.module or same_func(callee, func):
+            return False
+        body = [x for x in callee.node.body if not (isinstance(x, ast.Expr) and isinstance(x.value, ast.Constant))]
+        return len(body) >= 2 and not any(isinstance(x, (ast.Yield, ast.YieldFrom)) for x in ast.walk(callee.node))
+
+    def block(stmts):
+        out = []
+        for st in stmts:
+            for fld in ("body", "orelse", "finalbody"):
+                lst = getattr(st, fld, None)
+                if isinstance(lst, list) and lst and isinstance(lst[0], ast.stmt) and not isinstance(st, (ast.FunctionDef, ast.AsyncFunctionDef, ast.ClassDef)):
+                    setattr(st, fld, block(lst))
+            if isinstance(st, ast.Try):
+                for h in st.handlers:
+                    h.body = block(h.body)
+            if isinstance(st, (ast.Assign, ast.Return, ast.Expr, ast.AugAssign)) and st.value is not None and not isinstance(st.value, ast.Call):
+                pre = []
+
+                class H(ast.NodeTransformer):
+                    def visit_Call(self, node):
+                        self.generic_visit(node)
+                        if inlinable(node):
+                            counter[0] += 1
+                            nm = f"hoisted__{counter[0]}"
+                            pre.append(ast.copy_location(ast.Assign(targets=[ast.Name(id=nm, ctx=ast.Store())], value=node), st))
+                            return ast.copy_location(ast.Name(id=nm, ctx=ast.Load()), node)
+                        return node
+
+                    def visit_Lambda(self, node):
+                        return node
+
+                    def visit_IfExp(self, node):
+                        node.test = self.visit(node.test)
+                        return node  # arms are evaluated conditionally: left alone
+
+                    def visit_BoolOp(self, node):
+                        node.values[0] = self.visit(node.values[0])
+                        return node
+
+                    def visit_ListComp(self, node):
+                        return node
+
+                    visit_GeneratorExp = visit_SetComp = visit_DictComp = visit_ListComp
+
+                st.value = H().visit(st.value)
+                if pre:
+                    changed[0] = True
+                    out.extend(pre)
+            out.append(st)
+        return out
+
+    root = copy.deepcopy(func.node)
+    root.body = block(root.body)
+    if not changed[0]:
+        return func
+    ast.fix_missing_locations(root)
+    return Func(func.module, func.qualname, root, func.cls, func.parent)
+
+
+def fold_consts(func):
+    """A Func in which look-ups of module-level literal tables with a constant key (`FROM_SIGN[0]`), comparisons of two
+    constants and `if` / conditional expressions with a constant test are evaluated (the dead arm is dropped)."""
+    import copy
+    import operator
+
+    consts = func.module.consts
+    ops = {ast.Eq: operator.eq, ast.NotEq: operator.ne, ast.Lt: operator.lt, ast.LtE: operator.le, ast.Gt: operator.gt, ast.GtE: operator.ge}
+    shadow = {x.id for x in ast.walk(func.node) if isinstance(x, ast.Name) and isinstance(x.ctx, ast.Store)} | set(func.params)
+
+    class F(ast.NodeTransformer):
+        def visit_Subscript(self, node):
+            self.generic_visit(node)
+            if isinstance(node.ctx, ast.Load) and isinstance(node.value, ast.Name) and node.value.id in consts and node.value.id not in shadow and isinstance(node.slice, ast.Constant):
+                d = consts[node.value.id]
+                if isinstance(d, ast.Dict):
+                    for k, v in zip(d.keys, d.values):
+                        if isinstance(k, ast.Constant) and k.value == node.slice.value and type(k.value) is type(node.slice.value) and isinstance(v, ast.Constant):
+                            return ast.copy_location(ast.Constant(value=v.value), node)
+            return node
+
+        def visit_Compare(self, node):
+            self.generic_visit(node)
+            if len(node.ops) == 1 and isinstance(node.left, ast.Constant) and isinstance(node.comparators[0], ast.Constant) and type(node.ops[0]) in ops:
+                try:
+                    return ast.copy_location(ast.Constant(value=bool(ops[type(node.ops[0])](node.left.value, node.comparators[0].value))), node)
+                except TypeError:
+                    return node
+            return node
+
+        def visit_UnaryOp(self, node):
+            self.generic_visit(node)
+            if isinstance(node.op, ast.Not) and isinstance(node.operand, ast.Constant) and isinstance(node.operand.value, bool):
+                return ast.copy_location(ast.Constant(value=not node.operand.value), node)
+            return node
+
+        def visit_IfExp(self, node):
+            self.generic_visit(node)
+            if isinstance(node.test, ast.Constant) and isinstance(node.test.value, bool):
+                return node.body if node.test.value else node.orelse
+            return node
+
+        def visit_If(self, node):
+            self.generic_visit(node)
+            if isinstance(node.test, ast.Constant) and isinstance(node.test.value, bool):
+                arm = node.body if node.test.value else node.orelse
+                return arm if arm else ast.copy_location(ast.Pass(), node)
+            return node
+
+    root = F().visit(copy.deepcopy(func.node))
+    if ast.dump(root) == ast.dump(func.node):
+        return func
+    ast.fix_missing_locations(root)
+    return Func(func.module, func.qualname, root, func.cls, func.parent)
+
+
+def sink_into_branches(func):
+    """A Func in which the statements that follow an if / elif / else chain, up to the last one that reads a name
+    assigned in every arm of the chain, are moved (copied) into each arm:
+        if a: x = A          if a: x = A; S(x)
+        else: x = B    ->    else: x = B; S(x)
+        S(x)
+    and in which `x = E` immediately followed by `for v in x:` (x not used otherwise in that block) iterates E directly."""
+    import copy
+
+    changed = [False]
+
+    def arms(st):
+        """leaf statement lists of an if/elif/else chain (None if some arm is missing = no else)"""
+        out = []
+        cur = st
+        while True:
+            out.append(cur.body)
+            if len(cur.orelse) == 1 and isinstance(cur.orelse[0], ast.If):
+                cur = cur.orelse[0]
+                continue
+            if not cur.orelse:
+                return None
+            out.append(cur.orelse)
+            return out
+
+    def last_assigned(lst):
+        names = set()
+        for st in lst:
+            if isinstance(st, ast.Assign) and len(st.targets) == 1 and isinstance(st.targets[0], ast.Name):
+                names.add(st.targets[0].id)
+        return names
+
+    def block(stmts):
+        stmts = list(stmts)
+        i = 0
+        out = []
+        while i < len(stmts):
+            st = stmts[i]
+            for fld in ("body", "orelse", "finalbody"):
+                lst = getattr(st, fld, None)
+                if isinstance(lst, list) and lst and isinstance(lst[0], ast.stmt) and not isinstance(st, (ast.FunctionDef, ast.AsyncFunctionDef, ast.ClassDef)):
+                    setattr(st, fld, block(lst))
+            if isinstance(st, ast.Try):
+                for h in st.handlers:
+                    h.body = block(h.body)
+            if isinstance(st, ast.If):
+                a = arms(st)
+                if a is not None and all(not _always_returns(x) and not any(isinstance(y, (ast.Continue, ast.Break)) for y in x) for x in a):
+                    common = set.intersection(*[last_assigned(x) for x in a]) if a else set()
+                    # only branch-selected values: names assigned in every arm and not before the chain in this block
+                    rest = stmts[i + 1 :]
+                    k = 0
+                    for j, r in enumerate(rest):
+                        if {n.id for n in ast.walk(r) if isinstance(n, ast.Name) and isinstance(n.ctx, ast.Load)} & common:
+                            k = j + 1
+                    if common and k and all(isinstance(r, (ast.For, ast.Expr, ast.Assign, ast.With)) for r in rest[:k]) and sum(len(list(ast.walk(r))) for r in rest[:k]) < 400:
+                        moved = rest[:k]
+                        for x in a:
+                            x.extend(copy.deepcopy(moved))
+                        # re-run on the arms (adjacent x = E; for v in x)
+                        cur = st
+                        while True:
+                            cur.body = block(cur.body)
+                            if len(cur.orelse) == 1 and isinstance(cur.orelse[0], ast.If):
+                                cur = cur.orelse[0]
+                                continue
+                            cur.orelse = block(cur.orelse)
+                            break
+                        out.append(st)
+                        i += 1 + k
+                        changed[0] = True
+                        continue
+            # x = E ; for v in x: ...   (x not read elsewhere in this block)
+            if isinstance(st, ast.Assign) and len(st.targets) == 1 and isinstance(st.targets[0], ast.Name) and i + 1 < len(stmts) and isinstance(stmts[i + 1], ast.For) and isinstance(stmts[i + 1].iter, ast.Name) and stmts[i + 1].iter.id == st.targets[0].id and isinstance(st.value, ast.Call):
+                x = st.targets[0].id
+                uses = sum(1 for r in stmts[i + 1 :] for n in ast.walk(r) if isinstance(n, ast.Name) and n.id == x)
+                if uses == 1:
+                    lp = stmts[i + 1]
+                    lp.iter = st.value
+                    changed[0] = True
+                    i += 1
+                    continue
+            out.append(st)
+            i += 1
+        return out
+
+    root = copy.deepcopy(func.node)
+    root.body = block(root.body)
+    if not changed[0]:
+        return func
+    ast.fix_missing_locations(root)
+    return Func(func.module, func.qualname, root, func.cls, func.parent)
+
+
 def desugar_comprehensions(func):
     """A Func in which   X.extend(E for v in IT if C)   /   X = [E for v in IT if C]   /   X += [E for ...]   (one
     generator) are written as loops that append."""
